@@ -54,6 +54,10 @@ func instKey(p *Program, f *ssa.Function) string {
 func ruleC15Range(c *Ctx) {
 	c.Doc("c15.range", "every return in compare.Compare, Cmp[T] and compare[T] (all instantiations) yields a constant in {-1,0,1}, the result of strings.Compare (documented range), or the result of another member of the family")
 	c.NotDecidedClause("C15: transitivity as an algebraic law over values (follows from exact-domain + trichotomy for numbers and from strings.Compare for strings — argued, not computed); the %v text of floats vs their decimal text")
+	if f, formB := c.compareFormB(); formB {
+		c.decideCompareFormB(f)
+		return
+	}
 	cmp, cmps, compares, _ := c.compareFuncs()
 	if cmp == nil || len(cmps) == 0 || len(compares) == 0 {
 		c.Unknown("c15.range", "compare.Compare", "-", fmt.Sprintf("anchor lost: Compare=%v Cmp instances=%d compare instances=%d", cmp != nil, len(cmps), len(compares)))
@@ -117,6 +121,9 @@ func ruleC15Range(c *Ctx) {
 // ruleC15Trichotomy: Cmp[T] returns the sign of (x - y) for the two values it compares.
 func ruleC15Trichotomy(c *Ctx) {
 	c.Doc("c15.trichotomy", "Cmp[T] (every instantiation): over the order classes x<y, x==y, x>y of the two values it compares the result is -1, 0, 1 (decision table; the operands are abstracted to the order class, relational operators folded)")
+	if _, formB := c.compareFormB(); formB {
+		return // decided with c15.range on the paths of Compare itself
+	}
 	_, cmps, _, _ := c.compareFuncs()
 	for _, f := range cmps {
 		// the two compared values: operands of the relational BinOps in f
@@ -217,6 +224,9 @@ func exactIn(from, to *types.Basic) bool {
 // every dynamic type S of the right operand exactly.
 func ruleC15ExactDomain(c *Ctx) {
 	c.Doc("c15.exact-domain", "per instantiation Cmp[T]: both compared values have one type D; T->D is an exact conversion, and the right operand reaches D through As[D], every arm of which converts its asserted numeric type S->D exactly (no float->int, signed->unsigned or narrowing conversion): 12x12 (T,S) pairs")
+	if _, formB := c.compareFormB(); formB {
+		return
+	}
 	_, cmps, _, ases := c.compareFuncs()
 	asByType := map[string]*ssa.Function{}
 	for _, a := range ases {
@@ -334,6 +344,9 @@ func ruleC15ExactDomain(c *Ctx) {
 // the default arms compare the %v texts in operand order.
 func ruleC15Dispatch(c *Ctx) {
 	c.Doc("c15.symmetric-dispatch", "Compare's type switch covers the 12 numeric types and forwards (a, b) in order to compare[T]; compare[T] forwards numeric right operands to Cmp[T](a, v) in order, and compares text(a) with the string / text(v) via strings.Compare with the left operand first, as Compare's default arm does for non-numeric left operands")
+	if _, formB := c.compareFormB(); formB {
+		return
+	}
 	cmp, _, compares, _ := c.compareFuncs()
 	if cmp == nil {
 		return
@@ -555,4 +568,172 @@ func ruleC15DecimalText(c *Ctx) {
 		})
 	}
 	c.Check(len(why) == 0, "c15.decimal-text", "compare.text", "compare/compare.go", "floats through FormatFloat('f', -1); no direct %v of operands", strings.Join(uniq(why), "; "))
+}
+
+// ---- form B: Compare written without the generic family ---------------------------------------------------------------
+//
+// When Compare no longer goes through compare[T] / Cmp[T] (a rewrite that converts both operands to one numeric type
+// with a helper and compares in place), the four C15 obligations are decided on the paths of Compare itself, with its
+// helpers inlined by the walker:
+//   - every return is -1, 0, 1 or the result of strings.Compare;
+//   - on the paths where both operands are numbers the result is the sign of (x ? y) for the two converted values
+//     (0 iff x == y was taken, 1 iff x > y, -1 otherwise), x derived from a and y from b;
+//   - each converted value is conv[D](the asserted operand) with S -> D exact, and all 12 x 12 (S, T) pairs have a path;
+//   - every other path returns strings.Compare(text(a), text(b)) in that order.
+
+func (c *Ctx) compareFormB() (*ssa.Function, bool) {
+	cmp := c.P.Func(comparePath, "Compare")
+	if cmp == nil {
+		return nil, false
+	}
+	usesFamily := false
+	allInstrs(cmp, func(_ *ssa.BasicBlock, in ssa.Instruction) {
+		if call, ok := in.(*ssa.Call); ok {
+			if cal := call.Common().StaticCallee(); cal != nil && funcPkgPath(cal) == comparePath {
+				n := cal.Name()
+				if o := cal.Origin(); o != nil {
+					n = o.Name()
+				}
+				if n == "compare" || n == "Cmp" {
+					usesFamily = true
+				}
+			}
+		}
+	})
+	return cmp, !usesFamily
+}
+
+func (c *Ctx) decideCompareFormB(cmp *ssa.Function) {
+	key := "compare.Compare"
+	c.Fn(key)
+	paths, err := WalkFunc(cmp, WalkCfg{MaxVisits: 1, MaxPaths: 20000})
+	if err != nil {
+		c.Unknown("c15.range", key, c.P.Pos(cmp.Pos()), err.Error())
+		return
+	}
+	a, b := cmp.Params[0].Name(), cmp.Params[1].Name()
+	numeric := map[string]*types.Basic{}
+	for _, k := range numericKinds {
+		bt := types.Typ[k]
+		numeric[bt.Name()] = bt
+	}
+	numeric["byte"] = types.Typ[types.Uint8]
+	// conv[D](assertok[S](p:x)#0), or the asserted value itself for the identity arm
+	operand := func(t *Term, param string) (S, D *types.Basic, ok bool) {
+		if t == nil {
+			return nil, nil, false
+		}
+		inner := t
+		if t.Op == "conv" {
+			D = numeric[t.Name]
+			inner = t.Args[0]
+		}
+		if inner.Op != "ext" || inner.Name != "0" || inner.Args[0].Op != "assertok" || inner.Args[0].Args[0].Op != "param" || inner.Args[0].Args[0].Name != param {
+			return nil, nil, false
+		}
+		S = numeric[inner.Args[0].Name]
+		if S == nil {
+			return nil, nil, false
+		}
+		if t.Op != "conv" {
+			D = S
+		}
+		return S, D, D != nil
+	}
+	var whyRange, whyTri, whyExact, whyDisp []string
+	pairs := map[string]bool{}
+	nNum, nText := 0, 0
+	for _, p := range paths {
+		if p.Exit != "return" || len(p.Ret) != 1 {
+			continue
+		}
+		r := p.Ret[0]
+		if r.C != nil {
+			if k, exact := constant.Int64Val(r.C); !exact || k < -1 || k > 1 {
+				whyRange = append(whyRange, "a path returns "+avString(r))
+			}
+		} else if !(r.T != nil && r.T.Op == "call" && r.T.Name == "strings.Compare") {
+			whyRange = append(whyRange, "a path returns "+avString(r))
+		}
+		if r.C == nil {
+			// textual path
+			nText++
+			if r.T != nil && r.T.Op == "call" && r.T.Name == "strings.Compare" && !(textOf(r.T.Args[0], a) && textOf(r.T.Args[1], b)) {
+				whyDisp = append(whyDisp, "the textual arm does not compare text(a) with text(b) in order: "+r.T.String())
+			}
+			continue
+		}
+		// numeric path: the relational assumptions made on it
+		var eq, gt, lt *bool
+		var xT, yT *Term
+		for _, k := range p.Order {
+			kt := p.KeyTerm[k]
+			if kt == nil || kt.Op != "bin" || len(kt.Args) != 2 {
+				continue
+			}
+			v, _ := p.Assumed(k)
+			vv := v
+			switch kt.Name {
+			case "==":
+				eq = &vv
+			case ">":
+				gt = &vv
+			case "<":
+				lt = &vv
+			default:
+				continue
+			}
+			xT, yT = kt.Args[0], kt.Args[1]
+		}
+		if xT == nil {
+			whyTri = append(whyTri, "a path returns "+avString(r)+" without comparing two values")
+			continue
+		}
+		S, D1, ok1 := operand(xT, a)
+		T, D2, ok2 := operand(yT, b)
+		if !ok1 || !ok2 {
+			whyDisp = append(whyDisp, "the compared values are not (a converted, b converted) in that order: "+xT.String()+" , "+yT.String())
+			continue
+		}
+		nNum++
+		pairs[S.Name()+"/"+T.Name()] = true
+		if D1.Kind() != D2.Kind() {
+			whyExact = append(whyExact, fmt.Sprintf("%s is compared as %s with %s as %s", S, D1, T, D2))
+		}
+		if !exactIn(S, D1) {
+			whyExact = append(whyExact, fmt.Sprintf("%s->%s lossy", S, D1))
+		}
+		if !exactIn(T, D2) {
+			whyExact = append(whyExact, fmt.Sprintf("%s->%s lossy", T, D2))
+		}
+		k, _ := constant.Int64Val(r.C)
+		want := int64(-2)
+		switch {
+		case eq != nil && *eq:
+			want = 0
+		case gt != nil && *gt:
+			want = 1
+		case lt != nil && *lt:
+			want = -1
+		case eq != nil && !*eq && gt != nil && !*gt:
+			want = -1
+		case eq != nil && !*eq && lt != nil && !*lt:
+			want = 1
+		case gt != nil && !*gt && lt != nil && !*lt:
+			want = 0
+		}
+		if want == -2 || want != k {
+			whyTri = append(whyTri, fmt.Sprintf("with %s the result is %d", p.String(), k))
+		}
+	}
+	if len(pairs) < 144 {
+		whyDisp = append(whyDisp, fmt.Sprintf("only %d of the 144 pairs of numeric types reach the numeric comparison", len(pairs)))
+	}
+	if nText == 0 {
+		whyDisp = append(whyDisp, "no textual arm")
+	}
+	c.Check(len(whyRange) == 0, "c15.range", key, c.P.Pos(cmp.Pos()), "every return is -1, 0, 1 or strings.Compare", strings.Join(firstN(uniq(whyRange), 3), "; "))
+	c.Check(len(whyTri) == 0 && nNum > 0, "c15.trichotomy", key, c.P.Pos(cmp.Pos()), fmt.Sprintf("%d numeric paths: sign of the two converted values", nNum), strings.Join(firstN(uniq(whyTri), 3), "; "))
+	c.Check(len(whyExact) == 0 && nNum > 0, "c15.exact-domain", key, c.P.Pos(cmp.Pos()), "both operands converted exactly into one type", strings.Join(firstN(uniq(whyExact), 4), "; "))
+	c.Check(len(whyDisp) == 0, "c15.symmetric-dispatch", key, c.P.Pos(cmp.Pos()), fmt.Sprintf("%d type pairs dispatched, operands in order; text(a), text(b) otherwise", len(pairs)), strings.Join(firstN(uniq(whyDisp), 3), "; "))
 }
